@@ -252,12 +252,12 @@ def computeGrads {n d L K : Nat} (T : α) (X : Fin n → Fin d → α) (cl : Lis
         let ci := z.2.length
         -- self._all_binnings[i]
         let B : Fin n → Fin (ci + 1) → α := tab2 fun r j => (binning T (xget (X r) z.1) z.2).getD j.val 0
-        -- softmax_grad = binning_backprop.sum(axes_for_sum) / self._all_binnings[i]
-        let sg : Fin n → Fin (ci + 1) → α := tab2 fun r j =>
-          (sumFin fun l : Fin L => if digit rs i l.val = j.val then bb r l else 0) / B r j
-        -- bin_grad = B * (softmax_grad - (B * softmax_grad).sum(1, keepdims=True)); bin_grad /= temperature
+        -- weighted_grad = binning_backprop.sum(axes_for_sum)   (already carries the membership of this feature)
+        let wg : Fin n → Fin (ci + 1) → α := tab2 fun r j =>
+          sumFin fun l : Fin L => if digit rs i l.val = j.val then bb r l else 0
+        -- bin_grad = weighted_grad - B * weighted_grad.sum(1, keepdims=True); bin_grad /= temperature
         let bg : Fin n → Fin (ci + 1) → α := tab2 fun r j =>
-          B r j * (sg r j - sumFin fun j' => B r j' * sg r j') / T
+          (wg r j - B r j * sumFin fun j' => wg r j') / T
         -- bias_grad = bin_grad.sum(0)[1:]
         let biasGrad : List α := (List.finRange (ci + 1)).tail.map fun j => sumFin fun r => bg r j
         -- cumsum_grad = -np.cumsum(bias_grad[::-1])[::-1]
